@@ -16,6 +16,26 @@ import (
 func runC17(g Glue, j *Job, res *JobResult) {
 	e := &env{g: g, full: true, tokMethods: true}
 	n := len(j.Tasks)
+	// inputs that more than one task lexes live in one buffer shared by those tasks
+	if !j.Free {
+		count := map[string]int{}
+		for _, t := range j.Tasks {
+			seen := map[string]bool{}
+			for _, op := range t.Ops {
+				if op.In != nil && !op.In.FromFile && !op.In.UseTokens && op.Op == "parse" && !seen[op.In.Text] {
+					seen[op.In.Text] = true
+					count[op.In.Text]++
+				}
+			}
+		}
+		e.shared = map[string][]byte{}
+		for text, c := range count {
+			if c >= 2 {
+				e.shared[text] = newGuardedSrc(text)
+			}
+		}
+		res.Stats["shared-input-buffers"] = len(e.shared)
+	}
 	solo := func() [][]string {
 		out := make([][]string, n)
 		for i := 0; i < n; i++ {
